@@ -213,8 +213,12 @@ impl Scenario for Sc10 {
         (Ctx10 { store, base: base.clone(), before, latest_history: Default::default() }, futs)
     }
 
-    fn state_hash(&self, _ctx: &Ctx10) -> u64 {
-        0
+    fn state_hash(&self, ctx: &Ctx10) -> u64 {
+        store_hash(&ctx.store)
+    }
+
+    fn response_hash(&self, ctx: &Ctx10, _task: usize, label: &str) -> u64 {
+        response_hash(&ctx.store, label)
     }
 
     fn after_step(&self, ctx: &Ctx10, _trace: &[(Choice, String)]) -> Result<(), String> {
@@ -486,7 +490,11 @@ pub fn run(opts: &Opts) -> i32 {
     let results: Vec<_> = scs
         .par_iter()
         .map(|sc| {
-            let cfg = ExploreCfg { bound, max_schedules: 5_000_000, deadline: Some(deadline) };
+            // thorough: small layouts are explored without any preemption bound (state-key pruning
+            // makes that finite and small), the others with bound 3
+            let bound = if !q && sc.lay.len <= 2 && sc.parties.len() <= 2 { usize::MAX } else { bound };
+            let bound = match std::env::var("TCMC_BOUND").ok().as_deref() { Some("max") => usize::MAX, Some(n) => n.parse().unwrap_or(bound), None => bound };
+            let cfg = ExploreCfg { bound, max_schedules: 5_000_000, deadline: Some(deadline), seen: Some(Default::default()) };
             explore(sc, &cfg)
         })
         .collect();
@@ -535,6 +543,7 @@ pub fn run(opts: &Opts) -> i32 {
     rep.add("distinct_nontrivial", nontrivial);
     rep.add("distinct_outcomes", outcomes);
     rep.set("preemption_bound_completed", bound);
+    rep.set("unbounded_for_small_layouts", !q);
     println!("[C10] {} scenarios (layout x parties), {schedules} schedules, {steps} scheduled requests, {outcomes} distinct outcomes, {nontrivial} with deletions or rejections, {capped} capped ({:.1}s)", scs.len(), rep.elapsed());
     rep.finish()
 }
